@@ -92,8 +92,9 @@ def check_free(case):
     cells = {(c, l) for c, l in f["cells"]}
     langs = {l for _, l in cells if l} | ({"en", "fr"} if f["extra"] else set())
     sfx = lambda c: " ${inner}" if (case["ref"] and c in ("label", "hint", "constraint_message", "required_message")) else ""  # noqa: E731
-    b = obs.bind_map().get("/data/k", [None])[0]
-    ctrl = next((el for el, tag, ref, anc in obs.body_controls() if ref == "/data/k" or (tag == "repeat" and False)), None)
+    kp = {"ns-text": "/data/ex:k", "ns-group": "/data/ex:g/k", "ns-repeat-select": "/data/ex:r/ex:k"}.get(f["rk"], "/data/k")
+    b = obs.bind_map().get(kp, [None])[0]
+    ctrl = next((el for el, tag, ref, anc in obs.body_controls() if ref == kp), None)
     for c, attr in (("constraint_message", O.J + "constraintMsg"), ("required_message", O.J + "requiredMsg")):
         if not any(cc == c for cc, _ in cells):
             continue
